@@ -9,46 +9,46 @@
 From CV Require Import Conc.Sched Conc.Gauge Conc.Gauge_Proofs.
 
 Section C04.
-Variables (max fbmax : Z) (fbdis : bool).
+Variables (tmo max fbmax : Z) (fbdis : bool).
 
 (* at no instant are more than MaxConcurrentRequests run functions in flight ... *)
 Theorem c04_run_bound : forall pool s,
   0 <= max -> all_fresh pool -> no_setters pool ->
-  reach gstep1 (ginit max fbmax fbdis, pool) s -> cnt run_inflight (snd s) <= max.
-Proof. exact (run_bound max fbmax fbdis). Qed.
+  reach gstep1 (ginit tmo max fbmax fbdis, pool) s -> cnt run_inflight (snd s) <= max.
+Proof. exact (run_bound tmo max fbmax fbdis). Qed.
 
 (* ... or more than Fallback.MaxConcurrentRequests fallbacks *)
 Theorem c04_fb_bound : forall pool s,
   0 <= fbmax -> all_fresh pool -> no_setters pool ->
-  reach gstep1 (ginit max fbmax fbdis, pool) s -> cnt fb_inflight (snd s) <= fbmax.
-Proof. exact (fb_bound max fbmax fbdis). Qed.
+  reach gstep1 (ginit tmo max fbmax fbdis, pool) s -> cnt fb_inflight (snd s) <= fbmax.
+Proof. exact (fb_bound tmo max fbmax fbdis). Qed.
 
 (* a negative limit means unlimited: nobody is ever refused *)
 Theorem c04_unlimited : forall pool s,
-  all_fresh pool -> no_setters pool -> reach gstep1 (ginit max fbmax fbdis, pool) s ->
+  all_fresh pool -> no_setters pool -> reach gstep1 (ginit tmo max fbmax fbdis, pool) s ->
   (max < 0 -> cnt rejecting_run (snd s) = 0) /\ (fbmax < 0 -> cnt rejecting_fb (snd s) = 0).
-Proof. exact (unlimited max fbmax fbdis). Qed.
+Proof. exact (unlimited tmo max fbmax fbdis). Qed.
 
 (* the gauges always equal the number of threads between their Add(1) and Add(-1),
    also while the limits are being reconfigured ... *)
 Theorem c04_gauges_count : forall pool s,
-  all_fresh pool -> reach gstep1 (ginit max fbmax fbdis, pool) s ->
+  all_fresh pool -> reach gstep1 (ginit tmo max fbmax fbdis, pool) s ->
   g_cmds (fst s) = cnt holds_run (snd s) /\ g_fbs (fst s) = cnt holds_fb (snd s).
-Proof. exact (gauges_count max fbmax fbdis). Qed.
+Proof. exact (gauges_count tmo max fbmax fbdis). Qed.
 
 (* ... so once all calls have returned -- by normal return, error, rejection or panic of
    the run function or of the fallback -- both read zero *)
 Theorem c04_quiescent_zero : forall pool s,
-  all_fresh pool -> reach gstep1 (ginit max fbmax fbdis, pool) s ->
+  all_fresh pool -> reach gstep1 (ginit tmo max fbmax fbdis, pool) s ->
   Forall (fun l => finished l = true) (snd s) ->
   g_cmds (fst s) = 0 /\ g_fbs (fst s) = 0.
-Proof. exact (quiescent_zero max fbmax fbdis). Qed.
+Proof. exact (quiescent_zero tmo max fbmax fbdis). Qed.
 End C04.
 
 (* non-vacuity: three callers on limit 1, a schedule in which the second and third are refused *)
 Example c04_example :
   let pool := [Caller RunOk FbNone GStart; Caller RunErr FbOk GStart; Caller RunPanic FbNone GStart] in
-  let '(tr, fin, ok) := replay gstep1 [0;0;0;1;2;1;2;1;0]%nat (ginit 1 1 false) pool in
+  let '(tr, fin, ok) := replay gstep1 [0;0;0;0;1;2;1;2;1;0]%nat (ginit 0 1 1 false) pool in
   ok = true /\ cnt run_inflight (snd fin) = 0 /\ cnt holds_run (snd fin) = 2 /\ g_cmds (fst fin) = 2.
 Proof. vm_compute. repeat split. Qed.
 
